@@ -519,7 +519,17 @@ def _b_defaultdict(ex, st, args, kwargs, node, spec):
     raise Unsupported("defaultdict of non-int")
 
 
+def _b_slice(ex, st, args, kwargs, node, spec):
+    a = list(args) + [None] * (3 - len(args))
+    if len(args) == 1:
+        a = [None, args[0], None]
+    if a[2] is not None:
+        raise Unsupported("slice() with a step")
+    return ObjV("__slice__", {"lo": a[0], "hi": a[1]})
+
+
 BUILTINS = {
+    "slice": _b_slice,
     "defaultdict": _b_defaultdict, "collections.defaultdict": _b_defaultdict,
     "len": _b_len, "min": _minmax(True), "max": _minmax(False), "abs": _b_abs, "int": _b_int, "float": _b_float,
     "bool": _b_bool, "isinstance": _b_isinstance, "ord": _b_ord, "chr": _b_chr, "str": _b_str, "list": _b_list,
